@@ -446,7 +446,11 @@ def dispatcher_obligations(run, prog, tier, only=None, pendings=1, kinds=None, p
             shapes.append(("_position", b_vec, lambda w, pos=pos: spec_index("Vec", pos)))
         elif vname == "Function" and ftys == ["String", "Box<Expr>"]:
             name = z3.String("fn.name")
-            shapes.append(("", lambda ex, w, name=name: Agg(en, vname, {0: Str(name), 1: boxed_leaf(0)}), lambda w, name=name: spec_function(w, name)))
+            def b_fn(ex, w, name=name):
+                # registered names are identifiers (invariant established by add_boxed_function, C15); `probe` is the replay's own leaf function
+                ex.assume(z3.Implies(fn_registered(name), z3.And(z3.InRe(name, IDENT), name != z3.StringVal("probe"))))
+                return Agg(en, vname, {0: Str(name), 1: boxed_leaf(0)})
+            shapes.append(("", b_fn, lambda w, name=name: spec_function(w, name)))
         elif vname == "If" and nbox == 3:
             shapes.append(("", lambda ex, w: Agg(en, vname, {i: boxed_leaf(i) for i in range(3)}), lambda w: spec_if()))
         elif vname in ("And", "Or") and nbox == 2:
@@ -791,9 +795,9 @@ def two_calls_scenario(cex):
         if C.boolean(fn_registered(z3.StringVal(nm))):
             builder.append({"op": "function", "name": nm, "cacheable": C.boolean(fn_cacheable(z3.StringVal(nm))),
                             "results": plans.get(nm, []) + [{"ok": {"t": "String", "v": "UNEXPECTED-INVOCATION"}}], "pending": 0})
-    # both calls inside ONE rule (a list), so that they share the evaluation's cache
-    root = {"k": "Vec", "c": [{"k": "Function", "n": names[i], "c": [lit(C.value(p[i]))]} for i in range(2)]}
-    sc = {"facts": {"t": "None"}, "builder": builder + [{"op": "rule", "name": "main", "expr": root}]}
+    # two rules of ONE evaluation: they share the evaluation's cache, and a failing first call does not stop the second
+    rules = [{"op": "rule", "name": ("first", "second")[i], "expr": {"k": "Function", "n": names[i], "c": [lit(C.value(p[i]))]}} for i in range(2)]
+    sc = {"facts": {"t": "None"}, "builder": builder + rules}
     return sc, C, names
 
 
